@@ -831,6 +831,8 @@ class FitBase(FileIOMixin, object):
         :param float lower: The minimum parameter value.
         :param float upper: The maximum parameter value.
         """
+        if name not in self.parameter_names:
+            raise ValueError("Unknown parameter name: %s" % name)
         if lower is None and upper is None:
             raise ValueError("Either a lower or an upper bound must be provided!")
 
